@@ -266,9 +266,14 @@ def _run_vc(args):
                 tasks.append(("instances-consistent#path%d" % i, [h for h in ob.hyps if not ip.has_quantifier(h)] + list(ob.insts), None, "guard-sat", None))
         recs = _discharge(tasks, solve_task, nchild)
         out["obligations"] = [r_ for r_ in recs if r_.get("kind") != "guard-sat"]
-        for r_ in recs:
-            if r_.get("kind") == "guard-sat":
-                out["guards"].append({"name": r_["name"], "ok": r_["status"] != "unsat", "status": r_["status"]})
+        # a single path with contradictory instances is an infeasible path the explorer could not prune (quantified path conditions);
+        # the guard fails when EVERY path of one kind (returning / raising / loop-step paths) is contradictory - then nothing was proved
+        gs = [r_ for r_ in recs if r_.get("kind") == "guard-sat"]
+        kind_of = {("instances-consistent#path%d" % i): p.outcome for i, p in enumerate(paths)}
+        dead_kinds = {k for k in {kind_of[r_["name"]] for r_ in gs} if all(r_["status"] == "unsat" for r_ in gs if kind_of[r_["name"]] == k)}
+        for r_ in gs:
+            bad = r_["status"] == "unsat" and kind_of[r_["name"]] in dead_kinds
+            out["guards"].append({"name": r_["name"], "ok": not bad, "status": r_["status"] + (" (infeasible path)" if r_["status"] == "unsat" and not bad else "")})
         # vacuity guard 2: must-fail twins
         for tname, fn in vc.twins:
             goals = []
